@@ -318,6 +318,21 @@ Example ex_stream_flatten_nc :
                          [SevNext 0; SevNext 0; SevClose 0; SevNext 1]%nat) = true.
 Proof. vm_compute. reflexivity. Qed.
 
+(* stream.Error(err): every Next answers err - expired context, after Close -; the stream ending
+   at its second Next, or answering the context error, is rejected *)
+Example ex_stream_error_source :
+  check_stream (inl (ZSrc 0 (SError 7)),
+                Steps [CNext true; CNext false; CClose; CNext true],
+                mkRunObs [so (RErr 7) [1]; so (RErr 7) [2]; so RUnit [2]; so (RErr 7) [3]]
+                         [SevNext 0; SevNext 0; SevClose 0; SevNext 0]%nat) = true /\
+  check_stream (inl (ZSrc 0 (SError 7)), Steps [CNext true; CNext true],
+                mkRunObs [so (RErr 7) [1]; so REnd [2]] [SevNext 0; SevNext 0]%nat) = false /\
+  check_stream (inl (ZSrc 0 (SError 7)), Steps [CNext false],
+                mkRunObs [so (RErr (-1)) [1]] [SevNext 0]%nat) = false /\
+  check_stream (inl (ZMap (FnAffine 1 0) never_fails (ZSrc 0 (SError 7))), Reduce RCollect true,
+                mkRunObs [so (RErr 7) [1]] [SevNext 0; SevClose 0]%nat) = true.
+Proof. vm_compute. repeat split; reflexivity. Qed.
+
 (* a wrong observation is rejected *)
 Example ex_reject :
   check_stream (inl (ZSrc 0 (SSlice [4])), Reduce ROne true,
